@@ -422,7 +422,9 @@ def run_check(prop, module, tier, seed):
         zd.SCALE = old * 5
         try:
             for t in retry:
-                t.timeout = t.timeout * 5
+                # a task that ran out of wall clock gets twice the time on a quarter of the processes; only solver
+                # budgets are multiplied by 5 (an exact-algebra task that swells is not helped by waiting longer)
+                t.timeout = t.timeout * (2 if done.get(t.name, {}).get("timeout") else 5)
             done2 = run_tasks(retry, prop, tier, seed, nproc=4)
         finally:
             zd.SCALE = old
